@@ -398,7 +398,7 @@ func runC03(r *mc.Report, e *Env) {
 		"era_boundary_blocks": c03Fork,
 	})
 	defer debug.SetGCPercent(debug.SetGCPercent(400)) // many short-lived proofs over a small live heap
-	runC03Conc(r, e) // every worker explores its share of the schedules
+	runC03Conc(r, e)                                  // every worker explores its share of the schedules
 	if e.Of <= 1 || e.Shard == e.Of-1 {
 		c03Oracle(r, e)
 		c03DefaultAccumulators(r)
